@@ -75,6 +75,37 @@ def main():
                 want0 = [x0[s] for s in order]
                 if not np.allclose(rows[0], want0):
                     return dict(reproduced=True, call=call, observed=rows[0].tolist(), expected=want0)
+    # one Model (and one pre-built Interface on it) reused for a sequence of calls that runs through the option combinations: every call
+    # starts from the initial condition the model was built with, whichever simulator served the calls before it
+    for name, kw in models():
+        for via_itf in (False, True):
+            M = Model(**kw)
+            order = sorted(M.get_species2index(), key=lambda s: M.get_species2index()[s])
+            itfs = {False: ModelCSimInterface(M), True: SafeModelCSimInterface(M)} if via_itf else None
+            x0 = dict(kw['initial_condition_dict'])
+            if 'rules' in kw:
+                x0['Z'] = x0['X'] + x0['Y']
+                x0['W'] = x0['X'] * 1.0
+            want0 = [x0[s] for s in order]
+            history = []
+            combos = list(itertools.product([True, False], [True, False], [False, True], [False, 1.0]))
+            for stochastic, delay, safe, vol in combos + combos[:4]:
+                args = dict(stochastic=stochastic, delay=delay, safe=safe, volume=vol, return_dataframe=False)
+                if via_itf:
+                    args['Interface'] = itfs[safe]
+                else:
+                    args['Model'] = M
+                py_seed_random(11 + SPEC.get('seed', 0) + len(history))
+                try:
+                    rows = py_simulate_model(T, **args).py_get_result()
+                except Exception:
+                    continue
+                n += 1
+                here = dict(stochastic=stochastic, delay=delay, safe=safe, volume=vol)
+                if not np.allclose(rows[0], want0):
+                    return dict(reproduced=True, call='py_simulate_model(%s model, %r) on a %s that served %d earlier calls, the last one %r' % (name, here, 'pre-built interface' if via_itf else 'Model', len(history), history[-1] if history else None),
+                                observed=rows[0].tolist(), expected=want0)
+                history.append(here)
     return dict(reproduced=False, evaluations=n)
 
 
